@@ -158,6 +158,10 @@ const (
 var curFuture = driftFuture
 
 func newIngestor(cl bulk.StorageClient, maxDoc int) *bulk.Ingestor {
+	return newIngestorInflight(cl, maxDoc, 4)
+}
+
+func newIngestorInflight(cl bulk.StorageClient, maxDoc, inflight int) *bulk.Ingestor {
 	mp, err := mappingprovider.New("", mappingprovider.WithMapping(seq.Mapping{
 		"message": seq.NewSingleType(seq.TokenizerTypeText, "", 0),
 		"level":   seq.NewSingleType(seq.TokenizerTypeKeyword, "", 0),
@@ -168,7 +172,7 @@ func newIngestor(cl bulk.StorageClient, maxDoc int) *bulk.Ingestor {
 		panic(err)
 	}
 	return bulk.NewIngestor(bulk.IngestorConfig{
-		MaxInflightBulks:       4,
+		MaxInflightBulks:       inflight,
 		AllowedTimeDrift:       driftPast,
 		FutureAllowedTimeDrift: driftFuture,
 		MappingProvider:        mp,
@@ -1372,6 +1376,9 @@ func main() {
 	orcProp := vh.NewOracle("bulk.property", "grammar bodies through the real handler; expectation from the generator: accepted => exactly the in-limit object lines stored in order byte for byte, items = count, one store call, meta size = len, ID time by the rule; a reachable invalid line => not 200 and nothing stored; non-trivial = some but not all document lines stored")
 	orcTime := vh.NewOracle("bulk.timerule", "Ingestor.ProcessDocuments with exact request time: MID = own time iff parsed and -future <= req-doc <= past (big-integer arithmetic), else receive time; boundaries +-1ns/+-1ms, years 1..9999; non-trivial = time field parsed")
 
+	chNewID := vh.NewChannel("bulk.newid", "seq.NewID(t, (draw<<16)+index) vs SV.BulkTime.newID: MID and RID; draws = single-bit flips over all 64 bits, runs differing only in bits 28..47, random; instants with sub-millisecond parts 0, 1, 123456, 500000, 999999 ns; non-trivial = non-zero draw")
+	orcNewID := vh.NewOracle("bulk.ids", "at one instant, draws that differ in their 48 effective bits must give different IDs (seq.NewID as called by Process); thorough: one bulk of 120000 documents without a time field through the real Ingestor has pairwise distinct IDs; non-trivial = more than one draw")
+	orcOverlap := vh.NewOracle("bulk.overlap", "2..8 overlapping bulks through one Ingestor: the storage client call of each bulk stays in flight (holding the docs/metas blocks it was handed) while the next bulk is processed on the same goroutine; when it finally consumes them the docs block must decode to exactly that bulk's documents and the metas to their sizes; non-trivial = at least two bulks")
 	orcSingle := vh.NewOracle("bulk.single", "single-binary mode (child process): real storeapi.NewStore + in-memory StoreApiClient + SeqDBClient + bulk.Ingestor + BulkHandler; the store's index workers are parked at c07.aidx.start while a burst of one-document bulks (up to workers + queue length) is accepted, then released, several rounds; every accepted document must be found by its own token exactly once and fetched with its own bytes, and the process must survive; non-trivial = at least one bulk accepted")
 	orcE2E := vh.NewOracle("bulk.e2e", "real HTTP POST /_bulk (plain or gzip) into tests/setup.TestingEnv (ingestor + store, child process), then search by a per-request tag with fetch: accepted => exactly the qualifying documents can be fetched, byte for byte, items = count, ID times by the rule; rejected => nothing can be fetched; non-trivial = at least one document stored")
 
@@ -1413,6 +1420,17 @@ func main() {
 					lineCase(string(b), chProc, orcLines, orcProp, rep)
 				}
 			}
+			if d, sd, ok := parseOverlap(l); ok {
+				overlapCase(d, sd, orcOverlap, rep)
+			}
+			if tNs, idx, draws, ok := parseNewID(l); ok {
+				newIDCase(tNs, draws, idx, chNewID, orcNewID, rep)
+			}
+			if f := strings.Fields(l); len(f) == 2 && f[0] == "timeless" {
+				var n int
+				fmt.Sscanf(f[1], "%d", &n)
+				bigTimelessBulk(n, orcNewID, rep)
+			}
 			if p, ok := parseSingle(l); ok {
 				runSingle(p, orcSingle, rep)
 			}
@@ -1431,6 +1449,9 @@ func main() {
 		rep.AddOracle(orcTime)
 		rep.AddOracle(orcE2E)
 		rep.AddOracle(orcSingle)
+		rep.AddChannel(chNewID, o.Driver)
+		rep.AddOracle(orcNewID)
+		rep.AddOracle(orcOverlap)
 		rep.Write(o.Out)
 		return
 	}
@@ -1816,6 +1837,18 @@ func main() {
 			rep.AddChannel(ch, o.Driver)
 		}
 	}
+	if want("bulk.newid") {
+		runNewID(chNewID, orcNewID, rep, rng.Fork(), o)
+		if o.Thorough() {
+			bigTimelessBulk(120000, orcNewID, rep)
+		}
+		rep.AddChannel(chNewID, o.Driver)
+	}
+	if want("bulk.overlap") {
+		for rep2 := 0; rep2 < o.Pick(6, 60); rep2++ {
+			overlapCase(2+rep2%7, o.Seed*1000+int64(rep2), orcOverlap, rep)
+		}
+	}
 	if want("bulk.single") {
 		runSingle(singleParams{Rounds: o.Pick(2, 8), PerRound: 24, Seed: o.Seed}, orcSingle, rep)
 		if o.Thorough() {
@@ -1830,6 +1863,8 @@ func main() {
 	rep.AddOracle(orcTime)
 	rep.AddOracle(orcE2E)
 	rep.AddOracle(orcSingle)
+	rep.AddOracle(orcNewID)
+	rep.AddOracle(orcOverlap)
 	rep.AddOracle(orcIndex)
 	rep.AddOracle(orcConfig)
 	rep.AddOracle(orcLines)
